@@ -228,6 +228,7 @@ func genHTTPInputs(o hx.Opts, r *hx.Rand) []HttpInput {
 	add := func(in HttpInput) { in.Marker = fmt.Sprintf("h%d", len(ins)); ins = append(ins, in) }
 	id := func() string { return fmt.Sprintf("h%d", len(ins)) }
 	// corpus: pinned witnesses first
+	add(corpusPragma(id())) // the one finding that remains: first in the corpus
 	add(corpusNoUA(id()))
 	add(corpusPipelinedOneWrite(id()))
 	nLock, nPipe, nMal, nCut := 60, 24, 12, 16
@@ -295,6 +296,14 @@ func genHTTPInputs(o hx.Opts, r *hx.Rand) []HttpInput {
 		add(in)
 	}
 	return ins
+}
+
+// the remaining finding: net/http's parser adds Cache-Control: no-cache to a message that
+// only says Pragma: no-cache
+func corpusPragma(id string) HttpInput {
+	raw := []byte("GET /p HTTP/1.1\r\nHost: example.com\r\nUser-Agent: curl/7.58.0\r\nPragma: no-cache\r\n" + markerHeader + ": " + id + "\r\n\r\n")
+	return HttpInput{Class: "lockstep", Msgs: []hx.B{raw}, Items: []Item{{Seg: len(raw)}, {Wait: 1}},
+		Replies: []HReply{{Raw: []byte("HTTP/1.1 200 OK\r\nContent-Length: 2\r\n\r\nok"), Cuts: []int{39}}}}
 }
 
 func corpusNoUA(id string) HttpInput {
